@@ -548,7 +548,7 @@ def _zero_layer_case(fmt, wq, kind, aq, frozen, seed):
         m = torch.nn.Sequential(torch.nn.Linear(32, 8, dtype=dtype))
         xin = torch.randn(3, 32).to(dtype)
     else:
-        m = torch.nn.Sequential(torch.nn.Conv2d(4, 6, 3, dtype=dtype))
+        m = torch.nn.Sequential(torch.nn.Conv2d(4, 6, 3, groups=2 if kind == "conv2d-g2" else 1, dtype=dtype))
         xin = torch.randn(2, 4, 5, 5).to(dtype)
     with torch.no_grad():
         m[0].weight.zero_()
@@ -587,6 +587,7 @@ def _calib_case(fmt, aq, batch, seed):
             m[1].bias.zero_()
         with Calibration(streamline=False):
             m(cal)
+            m(cal)          # a second batch: the moving average of a zero / constant range
         ys = [m(cal), m(torch.randn(2, 32).to(dtype))]
     ys = [y.dequantize() if isinstance(y, QTensor) else y for y in ys]
     return {"finite": all(bool(torch.isfinite(y.to(torch.float32)).all()) for y in ys)}
@@ -606,7 +607,7 @@ def module_finite_events(req, rnd):
             pass
     for fmt in ("float32", "float16", "bfloat16"):
         for wq in ("qint8", "qfloat8_e4m3fn", "qfloat8_e5m2", "qint4", "qint2"):
-            for kind in ("linear", "conv2d"):
+            for kind in ("linear", "conv2d", "conv2d-g2"):
                 for aq in (None, "qint8", "qfloat8_e4m3fn"):
                     for frozen in (False, True):
                         r = run_isolated(_zero_layer_case, fmt, wq, kind, aq, frozen, rnd.randrange(10 ** 6))
